@@ -18,7 +18,10 @@ Enumerated first on every run (exportvals.motif_family): one model per reference
 literal types at their boundary values, instances of strict subclasses of them (user classes, enum
 members, numpy scalars), look-alikes, containers, arrays, importable things - held at model level,
 space level, in a derived space, in ItemSpaces and below one, read by every pattern that exposes the
-exact type; then pairs of kinds across the literal / non-literal boundary.
+exact type; then pairs of kinds across the literal / non-literal boundary.  Then the SCOPING family
+(exportscope.family): templates x contexts x name kinds for names bound by a comprehension / lambda / nested def /
+generator expression / walrus in one place of a formula and global (reference, cells, child space, ItemSpace
+parameter, built-in) in another - Python's own scoping is the oracle.
 Oracle (implementation only): wherever the model yields a value the package must yield the
 same value; the package must import; it must not load modelx; `export` must not raise.
 Queries on which the model itself raises are not compared.
@@ -28,6 +31,9 @@ depend on formula text.  Correspondence for them:
   * `rw`: for every exported method, every name that is global in the formula must have been
     rewritten to `self.<name>` iff `MxModel.Export.shouldReplace` says so (read off the
     generated `_mx_classes.py` with `ast`);
+  * `rwo`: for every OCCURRENCE of a name that sits directly in an inlined comprehension (Python >= 3.12) the
+    scopes around it up to the first one with a symbol table (own `ast` analysis) and whether the exporter rewrote
+    that occurrence must agree with `MxModel.Export.shouldReplaceAt` (the climb `classify`);
   * `look`: for probe cells `lambda: <name>` in (nested) parametrised spaces, the value found
     by the exported instance and by modelx must be the entry `exportedLookup` / `mxLookup`
     select;
